@@ -200,10 +200,10 @@ Import ListNotations.
 """
 
 
-def _run_coqc(path):
+def _run_coqc(path, factor=1):
     t0 = time.time()
     r = subprocess.run(
-        ["timeout", str(COQC_TIMEOUT), "coqc", "-Q", THEORIES, "QV",
+        ["timeout", str(COQC_TIMEOUT * factor), "coqc", "-Q", THEORIES, "QV",
          "-w", "-notation-overridden,-deprecated-hint-without-locality,-deprecated-instance-without-locality,-abstract-large-number",
          path],
         cwd=os.path.dirname(path), capture_output=True, text=True,
@@ -229,6 +229,12 @@ def run_cases(pid, files, jobs=16):
     with ThreadPoolExecutor(max_workers=jobs) as ex:
         for (name, _), res in zip(paths, ex.map(_run_coqc, [p for _, p in paths])):
             _, rc, so, se, dt = res
+            out[name] = (rc, so, se)
+    # a case file that ran out of time (a loaded machine) is evaluated again, alone and with four
+    # times the limit: a slow machine must not look like a broken correspondence
+    for name, p in paths:
+        if out[name][0] == 124:
+            _, rc, so, se, dt = _run_coqc(p, factor=4)
             out[name] = (rc, so, se)
     if all(rc == 0 for rc, _, _ in out.values()) and not os.environ.get("QV_KEEP_CASES"):
         shutil.rmtree(d, ignore_errors=True)
